@@ -166,7 +166,7 @@ struct NodeWorld : World {
                     else if (in.tag == 'T' || in.tag == 'F') in.v = app::vb(in.tag == 'T');
                     else if (in.tag == 's') in.v = app::vs(op.s.c_str());
                     else if (in.tag == 'S') { bool known = false; for (auto &o : l.opts) if (o == op.s) known = true; in.v = app::vs(known ? op.s.c_str() : l.opts[0].c_str()); stat_add(P_OPTION_SYMBOL); }
-                    else { int64_t x = op.a[1]; if (l.kind == app::K_PARAM_C || in.tag == 'c') x = std::max<int64_t>(-128, std::min<int64_t>(x, 127)); x = std::max<int64_t>(INT_MIN, std::min<int64_t>(x, INT_MAX)); in.v = app::vi((int)x); }
+                    else { int64_t x = op.a[1]; if (l.kind == app::K_PARAM_C || in.tag == 'c') x = std::max<int64_t>(-128, std::min<int64_t>(x, 127)); x = std::max<int64_t>(INT_MIN, std::min<int64_t>(x, INT_MAX)); x = std::max<int64_t>(l.smin, std::min<int64_t>(x, l.smax)); /* only values the storage type can represent */ in.v = app::vi((int)x); }
                     if (l.addr.find('/', 1) != std::string::npos) stat_add(P_SUBTREE_SET); else if (isdigit(l.addr.back())) stat_add(P_ARRAY_SET);
                 } else stat_add(P_QUERY);
                 if (op.kind == OP_SET && op.a[3] > 0) {   // respell the enumeration index of the address (first component that ends in digits and belongs to a '#N' port)
